@@ -59,11 +59,11 @@ Proof.
       try reflexivity;
       try (rewrite toggle_tt);
       cbn [cf_tt];
-      try (rewrite toggle_tt); cbn [cf_tt xorb];
+      try (rewrite toggle_tt); cbn [cf_tt negif];
       repeat match goal with
-             | |- context [xorb ?a ?b] => destruct a; cbn [xorb negb]
-             | |- context [v ?i] => destruct (v i); cbn [xorb negb implb orb andb]
-             | |- context [cf_tt v ?c] => destruct (cf_tt v c); cbn [xorb negb implb orb andb]
+             | |- context [negif ?a ?b] => destruct a; cbn [negif negb]
+             | |- context [v ?i] => destruct (v i); cbn [negif negb implb orb andb]
+             | |- context [cf_tt v ?c] => destruct (cf_tt v c); cbn [negif negb implb orb andb]
              end; reflexivity.
 Qed.
 
@@ -140,7 +140,7 @@ Qed.
 
 Lemma propag_neg_sound : forall v t t',
   propag_neg t = Some t' -> cf_tt v t' = cf_tt v t /\ is_nnf t' = true.
-Proof. intros v t t' H. destruct (pn_sound v _ _ _ H) as [H1 H2]. split; auto. Qed.
+Proof. intros v t t' H. destruct (pn_sound v _ _ _ H) as [H1 H2]. split; auto. rewrite H1. destruct (cf_tt v t); reflexivity. Qed.
 
 Lemma propag_neg_total : forall t, is_orform t = true -> exists t', propag_neg t = Some t'.
 Proof. intros; apply pn_total; auto. Qed.
@@ -160,7 +160,7 @@ Proof.
     destruct (to_cnf fuel l) as [l'| |] eqn:El; cbn [rbind] in H; try discriminate.
     destruct (to_cnf fuel r) as [r'| |] eqn:Er; cbn [rbind] in H; try discriminate.
     destruct (IH _ _ El Hl) as [Hl1 Hl2]. destruct (IH _ _ Er Hr) as [Hr1 Hr2].
-    cbn [cf_tt xorb]. rewrite <- Hl1, <- Hr1.
+    cbn [cf_tt negif]. rewrite <- Hl1, <- Hr1.
     destruct l' as [nl|nl il|nl al bl|nl al bl].
     + discriminate.
     + destruct r' as [nr|nr ir|nr ar br|nr ar br].
@@ -174,7 +174,7 @@ Proof.
         assert (Hnn : is_nnf (CAnd false (COr false (CVar nl il) ar) (COr false (CVar nl il) br)) = true).
         { cbn. rewrite (cnf_is_nnf _ Har), (cnf_is_nnf _ Hbr). reflexivity. }
         destruct (IH _ _ H Hnn) as [H1 H2]. split; [|exact H2].
-        rewrite H1. cbn. destruct (xorb nl (v il)), (cf_tt v ar), (cf_tt v br); reflexivity.
+        rewrite H1. cbn. destruct (negif nl (v il)), (cf_tt v ar), (cf_tt v br); reflexivity.
     + destruct r' as [nr|nr ir|nr ar br|nr ar br].
       * discriminate.
       * inversion H; subst. split; [reflexivity|].
@@ -185,10 +185,10 @@ Proof.
         destruct nr; [discriminate|].
         assert (Hcl : is_nnf (COr nl al bl) = true) by (apply cnf_is_nnf; exact Hl2).
         assert (Hnn : is_nnf (CAnd false (COr false (COr nl al bl) ar) (COr false (COr nl al bl) br)) = true).
-        { cbn [is_nnf negb andb]. rewrite Hcl, (cnf_is_nnf _ Har), (cnf_is_nnf _ Hbr). reflexivity. }
+        { cbn in Hcl |- *. rewrite Hcl, (cnf_is_nnf _ Har), (cnf_is_nnf _ Hbr). reflexivity. }
         destruct (IH _ _ H Hnn) as [H1 H2]. split; [|exact H2].
-        rewrite H1. cbn [cf_tt xorb].
-        destruct (cf_tt v (COr nl al bl)), (cf_tt v ar), (cf_tt v br); reflexivity.
+        rewrite H1. set (x := COr nl al bl). cbn [cf_tt negif].
+        destruct (cf_tt v x), (cf_tt v ar), (cf_tt v br); reflexivity.
     + (* l' is And *)
       cbn in Hl2. apply andb_prop in Hl2 as [Hl2 Hbl]. apply andb_prop in Hl2 as [Hnl Hal].
       destruct nl; [discriminate|].
@@ -211,30 +211,29 @@ Proof.
   induction fuel as [|fuel IH]; intros t Hn; [discriminate|].
   destruct t as [n|n i|n l r|n l r]; cbn [to_cnf]; try discriminate.
   - cbn in Hn. apply andb_prop in Hn as [Hn Hr]. apply andb_prop in Hn as [Hn0 Hl].
-    destruct (to_cnf fuel l) as [l'| |] eqn:El; cbn [rbind]; try discriminate; [|exfalso; eapply IH; eauto].
-    destruct (to_cnf fuel r) as [r'| |] eqn:Er; cbn [rbind]; try discriminate; [|exfalso; eapply (IH r); eauto].
+    destruct (to_cnf fuel l) as [l'| |] eqn:El; cbn [rbind]; try discriminate; [|exfalso; exact (IH _ Hl El)].
+    destruct (to_cnf fuel r) as [r'| |] eqn:Er; cbn [rbind]; try discriminate; [|exfalso; exact (IH _ Hr Er)].
     pose proof (to_cnf_sound (fun _ => false) _ _ _ El Hl) as [_ Hl2].
     pose proof (to_cnf_sound (fun _ => false) _ _ _ Er Hr) as [_ Hr2].
-    destruct l' as [nl|nl il|nl al bl|nl al bl]; try discriminate.
+    destruct l' as [nl|nl il|nl al bl|nl al bl]; [cbn in Hl2; discriminate| | |].
     + destruct r' as [nr|nr ir|nr ar br|nr ar br]; try discriminate.
       cbn in Hr2. apply andb_prop in Hr2 as [Hr2 Hbr]. apply andb_prop in Hr2 as [Hnr Har].
       apply IH. cbn. rewrite (cnf_is_nnf _ Har), (cnf_is_nnf _ Hbr). reflexivity.
     + destruct r' as [nr|nr ir|nr ar br|nr ar br]; try discriminate.
       cbn in Hr2. apply andb_prop in Hr2 as [Hr2 Hbr]. apply andb_prop in Hr2 as [Hnr Har].
       assert (Hcl : is_nnf (COr nl al bl) = true) by (apply cnf_is_nnf; exact Hl2).
-      apply IH. cbn [is_nnf negb andb]. rewrite Hcl, (cnf_is_nnf _ Har), (cnf_is_nnf _ Hbr). reflexivity.
+      apply IH. cbn in Hcl |- *. rewrite Hcl, (cnf_is_nnf _ Har), (cnf_is_nnf _ Hbr). reflexivity.
     + cbn in Hl2. apply andb_prop in Hl2 as [Hl2 Hbl]. apply andb_prop in Hl2 as [Hnl Hal].
       apply IH. cbn. rewrite (cnf_is_nnf _ Hal), (cnf_is_nnf _ Hbl), (cnf_is_nnf _ Hr2). reflexivity.
   - cbn in Hn. apply andb_prop in Hn as [Hn Hr]. apply andb_prop in Hn as [Hn0 Hl].
-    destruct (to_cnf fuel l) as [l'| |] eqn:El; cbn [rbind]; try discriminate; [|exfalso; eapply IH; eauto].
-    destruct (to_cnf fuel r) as [r'| |] eqn:Er; cbn [rbind]; try discriminate. exfalso; eapply (IH r); eauto.
-  - discriminate.
+    destruct (to_cnf fuel l) as [l'| |] eqn:El; cbn [rbind]; try discriminate; [|exfalso; exact (IH _ Hl El)].
+    destruct (to_cnf fuel r) as [r'| |] eqn:Er; cbn [rbind]; try discriminate. exfalso; exact (IH _ Hr Er).
 Qed.
 
 (* ------------------------------------------------------------------------------------------ *)
 (** * to_clauses *)
 
-Lemma lit_of_tt : forall v n i, lit_tt v (lit_of n i) = xorb n (v i).
+Lemma lit_of_tt : forall v n i, lit_tt v (lit_of n i) = negif n (v i).
 Proof.
   intros v n i. unfold lit_of, lit_tt.
   destruct n.
@@ -263,7 +262,7 @@ Proof.
   intros v t; induction t as [n|n i|n l IHl r IHr|n l IHl r IHr]; cbn [is_clause]; intros H; try discriminate.
   - exists [lit_of n i]. split; [reflexivity|]. split.
     + split; [discriminate|]. constructor; [apply lit_of_nz|constructor].
-    + cbn. rewrite lit_of_tt. destruct (xorb n (v i)); reflexivity.
+    + cbn. rewrite lit_of_tt. destruct (negif n (v i)); reflexivity.
   - apply andb_prop in H as [H Hr]. apply andb_prop in H as [Hn Hl]. destruct n; [discriminate|].
     destruct (IHl Hl) as (cl & El & [Hne Hnz] & Hl1). destruct (IHr Hr) as (cr & Er & [Hner Hnzr] & Hr1).
     exists (cl ++ cr). cbn [to_clauses]. rewrite El, Er.
